@@ -481,7 +481,8 @@ impl<'a, W: Write + 'a> ser::Serializer for &'a mut Serializer<W> {
                 None => {
                     // A string represents a sequence of Unicode characters
                     // as defined by the Unicode V6.0.0 standard [UNICODE6].
-                    let l = v.chars().count();
+                    // The width field counts octets, not characters
+                    let l = v.len();
 
                     let code = [EncodingCodes::Str32 as u8];
                     let width: [u8; 4] = (l as u32).to_be_bytes();
@@ -505,7 +506,8 @@ impl<'a, W: Write + 'a> ser::Serializer for &'a mut Serializer<W> {
                 None => {
                     // A string represents a sequence of Unicode characters
                     // as defined by the Unicode V6.0.0 standard [UNICODE6].
-                    let l = v.chars().count();
+                    // The width field counts octets, not characters
+                    let l = v.len();
 
                     let width: [u8; 4] = (l as u32).to_be_bytes();
                     self.writer.write_all(&width)?;
